@@ -5,7 +5,7 @@ Usage: selftest/run.py [name-substring]"""
 import json, os, subprocess, sys, shutil, glob, tempfile, functools
 print = functools.partial(print, flush=True)
 root = os.path.dirname(os.path.dirname(os.path.abspath(__file__)))
-flt = sys.argv[1] if len(sys.argv) > 1 else ''
+flts = sys.argv[1:]
 cases = []
 for f in sorted(glob.glob(os.path.join(root, 'selftest', 'mutants', '*.json')) + glob.glob(os.path.join(root, 'selftest', 'harmless', '*.json'))):
     m = json.load(open(f)); m['name'] = os.path.basename(f)[:-5]; cases.append(m)
@@ -20,7 +20,7 @@ base = tempfile.mkdtemp(prefix='gocv-selftest-base-', dir='/var/tmp')
 subprocess.run(['rsync', '-a', '--exclude', '.git', '/repo/', base + '/'], check=True)
 ok = bad = 0
 for c in cases:
-    if flt and flt not in c['name']:
+    if flts and not any(f in c['name'] for f in flts):
         continue
     scratch = tempfile.mkdtemp(prefix='gocv-selftest-', dir='/var/tmp')
     try:
